@@ -214,7 +214,7 @@ PROPS.update({
                                     'a printable-ASCII line contains no inner newline (text_ok is established only through these assumed specs)',
                                     'post_process_emission: at most a type-confusion rewrite of the current emission (dyn dispatch over the registered built-in mutators is assumed)']),
     'C05': dict(
-        title='Only opcodes of the requested protocol, right header', verus=['core', 'mutv'], kani_quick=U7, scans=['stdlibdata'], level='proof',
+        title='Only opcodes of the requested protocol, right header', verus=['core', 'mutv'], kani_quick=U7, scans=['stdlibdata', 'clifwd'], level='proof',
         technique='Verus contracts: candidate set within the protocol table, emitted opcode in the chosen family and protocol, collapse-phase opcodes in protocol, PROTO header clause of generate_internal',
         claim='Proof that every opcode recorded in the trace (body and collapse tail) was introduced in protocol <= P, PROTO P is the first two bytes iff P >= 2.',
         note=_NOTE + ' Table content is assumed in Verus and proved exactly equal to the CPython vocabulary by the Kani harness u7_tables_exact; the protocol-0 7-bit-ASCII clause for payload bytes is not covered yet.',
@@ -265,7 +265,7 @@ PROPS.update({
         assumptions=_CORE_ASSUME + ['src/main.rs flag forwarding: bounded cross-check only (xcheck.cli_flags)',
                                     'compiler-derived Default impls of State and Stack (templates require the #[derive(Default)] to be present)']),
     'C11': dict(
-        title='Opcode-count knobs bound the program size', verus=['core', 'mutv'], level='proof',
+        title='Opcode-count knobs bound the program size', verus=['core', 'mutv'], scans=['clifwd'], level='proof',
         technique='Verus contract on generate_internal: loop runs exactly T times, one opcode per iteration, tail <= 2T+1',
         claim='Proof that the body has exactly T opcodes with min <= T < max (T = min when max <= min) and the collapse tail has at most 2T+1 opcodes. '
               'Any mode (unsafe mutations included, budgets below 2^31): exactly T body emissions, each appending one non-empty, complete opcode (the simulated memo keys are 0..len in every mode, '
